@@ -377,7 +377,20 @@ impl<'a> G<'a> {
             0 | 1 => {
                 let then = self.arm(fwd, in_sub, sub_from);
                 let dangling = matches!(then.last(), Some(St::If(_, _, None)));
-                let els = if !dangling && self.rng.chance(1, 2) { Some(self.arm(fwd, in_sub, sub_from)) } else { None };
+                let mut then = then;
+                let mut els = if !dangling && self.rng.chance(1, 2) { Some(self.arm(fwd, in_sub, sub_from)) } else { None };
+                if self.o.data && self.rng.chance(1, 10) {
+                    // DATA as the last statement of the last arm: its constants belong to the pool whether or not
+                    // the arm is ever executed
+                    let d = St::Data(vec![Datum::N(self.rng.range(0, 99)), Datum::N(self.rng.range(-9, 9))]);
+                    let last = match els.as_mut() {
+                        Some(e) => e,
+                        None => &mut then,
+                    };
+                    if !matches!(last.last(), Some(St::If(..)) | Some(St::Rem(..))) {
+                        last.push(d);
+                    }
+                }
                 let c = self.pred();
                 v.push(St::If(c, then, els));
             }
@@ -2168,14 +2181,27 @@ pub fn model_session(p: &Prog, cmds: &[Cmd], max_steps: u64) -> Vec<ModelRun> {
         max_depth: 0,
         shape_log: vec![],
     };
-    for (li, l) in p.lines.iter().enumerate() {
-        for s in &l.sts {
-            if let St::Data(ns) = s {
-                for n in ns {
-                    m.data.push((li, n.clone()));
+    fn collect_data(sts: &[St], li: usize, out: &mut Vec<(usize, Datum)>) {
+        for s in sts {
+            match s {
+                St::Data(ns) => {
+                    for n in ns {
+                        out.push((li, n.clone()));
+                    }
                 }
+                // DATA inside the arms of an IF is part of the pool, in source order
+                St::If(_, t, e) => {
+                    collect_data(t, li, out);
+                    if let Some(e) = e {
+                        collect_data(e, li, out);
+                    }
+                }
+                _ => {}
             }
         }
+    }
+    for (li, l) in p.lines.iter().enumerate() {
+        collect_data(&l.sts, li, &mut m.data);
     }
     m.pair_whiles();
     let mut runs = vec![];
